@@ -22,10 +22,10 @@ crate::amv::common::real_map_scenarios!();
 
 instances! {
     c01_s_first_writer_wins => m_first_writer_wins();
-    c01_s_two_ids => m_two_ids();
-    c01_s_type_separation => m_type_separation();
-    c01_s_clear => m_clear();
-    c01_s_take_dh => m_take_tracked();
+    c01_s_two_present => s_two_present();
+    c01_s_take => s_take();
+    c01_s_other_type => s_other_type();
+    c01_s_clear => s_clear();
 }
 
 /// C01.K4: number of shards is a power of two and the shard index is in range and identical for get_shard /
